@@ -1,18 +1,25 @@
 (* C18: evaluation of harness cases - dispatcher over all case kinds (Model.run_case for kinds 0..7,
    the FiberPool / pipeline / executor models for the kinds added later).  Definitions only. *)
 From ZV.Common Require Import Base Run.
-From ZV.C18 Require Import Model ModelFiber.
+From ZV.C18 Require Import Model ModelFiber ModelPipe.
 Open Scope N_scope.
 
 (* kind 8 FiberPool history; 9 FiberPool::parallel_map (b = 0: preceded by the result-collection model of
-   Model.v on the same inputs); 10 FiberPool::parallel_for_each; 11 FiberPool::parallel_reduce
-   (a = max_workers, b = 1000 * chunk size as computed by the harness + max_fibers; preceded by
-   Model.case_reduce) *)
+   Model.v on the same inputs; b = 1: with panicking items); 10 FiberPool::parallel_for_each;
+   11 FiberPool::parallel_reduce (a = max_workers, b = 1000 * chunk size as computed by the harness + max_fibers;
+   preceded by Model.case_reduce); 12 Pipeline::process_batch (a = path, b = slow + 2 * preceded by Model.case_pmap);
+   13 execute_single / execute_two_stage; 14 execute_stream (ops = the error code the implementation returned,
+   then the inputs; preceded by Model.case_stream); 15 BatchCollector with a clock *)
 Definition run_case2 (fixed : bool) (kind a b : N) (ops : list Z) : list Z :=
   match kind with
   | 8 => case_pool a b ops
-  | 9 => (if b =? 0 then case_pmap ops ++ [(-8)%Z] else []) ++ case_fp_map a ops
+  | 9 => (if b =? 0 then case_pmap ops ++ [(-8)%Z] else []) ++ case_fp_map a (negb (b =? 0)) ops
   | 10 => case_fp_each a ops
   | 11 => case_reduce (b / 1000) ops ++ [(-8)%Z] ++ case_fp_reduce a (b mod 1000) ops
+  | 12 => (if b / 2 =? 1 then case_pmap ops ++ [(-8)%Z] else []) ++ case_pbatch a (b mod 2) ops
+  | 13 => case_single (hd 0%Z ops)
+  | 14 => (if b / 2 =? 0 then case_stream a (b mod 2) (tl ops) ++ [(-8)%Z] else [])
+          ++ case_pstream a b (hd 0%Z ops) (tl ops)
+  | 15 => case_bcoll a b ops
   | _ => run_case fixed kind a b ops
   end.
